@@ -388,9 +388,12 @@ def _repr_only(ctx, P, cx, pkt, label):
 
 
 def generic(ctx, direction, state, cname, strlen=1, sentinel=False,
-            lite=False, repr_only=False):
+            lite=False, repr_only=False, versions='supported'):
     import minecraft
-    pv = sym_version(ctx, 'pv', list(minecraft.SUPPORTED_PROTOCOL_VERSIONS))
+    vs = list(minecraft.SUPPORTED_PROTOCOL_VERSIONS)
+    if versions == 'release':
+        vs = [v for v in minecraft.RELEASE_PROTOCOL_VERSIONS if v in vs]
+    pv = sym_version(ctx, 'pv', vs)
     cx = _ctxobj(pv)
     P = _get_class(ctx, direction, state, cname, cx)
     note_key(ctx, 'C05:%s.%s.%s%s' % (direction, state, cname,
@@ -599,9 +602,9 @@ def special_PlayerListItemPacket(ctx, P, cx, strlen, lite=False):
                     if signed else None))
             f['properties'] = props
         if kind in (0, 1):
-            f['gamemode'] = ctx.int('gm%d' % i, 0, (1 << 14) - 1 if lite else (1 << 32) - 1)
+            f['gamemode'] = ctx.int('gm%d' % i, 0, 127 if lite else (1 << 32) - 1)
         if kind in (0, 2):
-            f['ping'] = ctx.int('ping%d' % i, 0, (1 << 14) - 1 if lite else (1 << 32) - 1)
+            f['ping'] = ctx.int('ping%d' % i, 0, 127 if lite else (1 << 32) - 1)
         if kind in (0, 3):
             f['display_name'] = sstr.ctx_str(ctx, 'dn%d' % i, strlen) \
                 if bool(ctx.bool('has_dn%d' % i)) else None
@@ -774,7 +777,11 @@ def instances(tier, seed):
         out.append(Instance(
             'repr:%s.%s.%s' % (direction, state, cname), 'generic',
             {'direction': direction, 'state': state, 'cname': cname,
-             'strlen': 1, 'lite': tier != 'thorough', 'repr_only': True},
+             'strlen': 1, 'lite': tier != 'thorough', 'repr_only': True,
+             # the textual form of this class formats the protocol number
+             # itself (one fork per version): releases only in the quick tier
+             'versions': 'release' if cname == 'SpawnObjectPacket' and
+             tier != 'thorough' else 'supported'},
             W=96, budget_s=3000, witness_every=7, max_decisions=100000))
     nprog = 120 if tier == 'thorough' else 20
     for first in range(0, nprog, 5):
